@@ -35,7 +35,7 @@ func corrC12(r *Run) {
 		"any command_status, container sizes on both sides of 255/256, TLV and UDH value lengths on both sides of 65534/65535 and 255/256, " +
 		"messages on both sides of 140); non-trivial = distinct (type, value) with at least one field beyond the header; distinct by canonical value text"
 	ts := pduTypes()
-	n := r.N(40, 600) // per type
+	n := r.N(24, 600) // per type
 	for _, t := range ts {
 		for i := 0; i < n; i++ {
 			mode := modeWild
